@@ -19,8 +19,120 @@ from .pyindex import PyIndex, FuncInfo
 _n = itertools.count(1)
 
 
-def _helper_for(idx: PyIndex, fi: FuncInfo, call: ast.Call) -> Optional[FuncInfo]:
+def field_types(idx: PyIndex, cid: str, attr: str) -> set:
+    """Classes an attribute of class `cid` is declared to hold (class-level annotation - dataclass field -, annotated __init__ parameter of that name, or the
+    return annotation of a property), through Optional/List/...; empty when undeclared."""
+    for c in idx.mro(cid):
+        for st in c.node.body:
+            if isinstance(st, ast.AnnAssign) and isinstance(st.target, ast.Name) and st.target.id == attr:
+                return idx.ann_classes(c.module, st.annotation)
+        init = c.methods.get('__init__')
+        if init is not None:
+            for a in list(init.node.args.args) + list(init.node.args.kwonlyargs):
+                if a.arg == attr and a.annotation is not None:
+                    ts = idx.ann_classes(c.module, a.annotation)
+                    if ts:
+                        return ts
+        p = c.props.get(attr)
+        if p is not None and p.node.returns is not None:
+            return idx.ann_classes(c.module, p.node.returns)
+    return set()
+
+
+def _strip_default(e: ast.AST) -> ast.AST:
+    """`X or []` / `list(X)` / `tuple(X)` -> X"""
+    while True:
+        if isinstance(e, ast.BoolOp) and isinstance(e.op, ast.Or) and len(e.values) == 2 and isinstance(e.values[1], (ast.List, ast.Tuple)) and not e.values[1].elts:
+            e = e.values[0]
+        elif isinstance(e, ast.Call) and isinstance(e.func, ast.Name) and e.func.id in ('list', 'tuple') and len(e.args) == 1 and not e.keywords:
+            e = e.args[0]
+        else:
+            return e
+
+
+_depth = [0]
+
+
+def _returned_elem_type(idx: PyIndex, m: FuncInfo) -> Optional[str]:
+    """Element class of the list an unannotated method builds and returns (`r = []`, `r.append(x)` with x of a declared class, `return r`)."""
+    _depth[0] += 1
+    try:
+        env = type_env(idx, m, m.node, {})
+    finally:
+        _depth[0] -= 1
+    rets = [x.value for x in ast.walk(m.node) if isinstance(x, ast.Return) and x.value is not None]
+    if len(rets) != 1 or not isinstance(rets[0], ast.Name):
+        return None
+    r = rets[0].id
+    inits = [x for x in ast.walk(m.node) if isinstance(x, ast.Assign) and len(x.targets) == 1 and isinstance(x.targets[0], ast.Name) and x.targets[0].id == r]
+    if len(inits) != 1 or not (isinstance(inits[0].value, ast.List) and not inits[0].value.elts):
+        return None
+    ts = set()
+    for c in ast.walk(m.node):
+        if isinstance(c, ast.Call) and isinstance(c.func, ast.Attribute) and isinstance(c.func.value, ast.Name) and c.func.value.id == r:
+            if c.func.attr == 'append' and len(c.args) == 1 and isinstance(c.args[0], ast.Name) and c.args[0].id in env:
+                ts.add(env[c.args[0].id])
+            else:
+                return None
+    return next(iter(ts)) if len(ts) == 1 else None
+
+
+def type_env(idx: PyIndex, fi: FuncInfo, fn: ast.AST, exact: Dict[str, str]) -> Dict[str, str]:
+    """variable -> class id: the given (exact) types, `self`, and what follows from declarations: a loop variable over a declared collection attribute or
+    over the annotated result of a method, an alias, a constructor call.  Only names stored at most once."""
+    env: Dict[str, str] = dict(exact)
+    if fi.cls and isinstance(fn, ast.FunctionDef) and fn.args.args and fi.kind in ('method', 'property', 'setter', 'classmethod'):
+        env.setdefault(fn.args.args[0].arg, fi.cls)
+    stores: Dict[str, int] = {}
+    for x in ast.walk(fn):
+        if isinstance(x, ast.Name) and isinstance(x.ctx, ast.Store):
+            stores[x.id] = stores.get(x.id, 0) + 1
+
+    def of_expr(e: ast.AST) -> Optional[str]:
+        e = _strip_default(e)
+        if isinstance(e, ast.Name):
+            return env.get(e.id)
+        if isinstance(e, ast.Attribute) and isinstance(e.value, ast.Name) and e.value.id in env:
+            ts = field_types(idx, env[e.value.id], e.attr)
+            return next(iter(ts)) if len(ts) == 1 else None
+        if isinstance(e, ast.Call) and isinstance(e.func, ast.Attribute) and isinstance(e.func.value, ast.Name) and e.func.value.id in env:
+            m = idx.lookup_method(env[e.func.value.id], e.func.attr)
+            if m is not None and m.node.returns is not None:
+                ts = idx.ann_classes(m.module, m.node.returns)
+                return next(iter(ts)) if len(ts) == 1 else None
+            if m is not None and _depth[0] < 2:
+                return _returned_elem_type(idx, m)
+        if isinstance(e, ast.Call) and isinstance(e.func, ast.Name):
+            ci = idx.class_of(fi.module, e.func)
+            if ci is not None:
+                return ci.id
+        return None
+    for _ in range(4):
+        before = len(env)
+        for x in ast.walk(fn):
+            if isinstance(x, (ast.For, ast.comprehension)) and isinstance(x.target, ast.Name) and stores.get(x.target.id, 0) <= 1 and x.target.id not in env:
+                t = of_expr(x.iter)     # element type of a declared collection = the class named in its annotation
+                if t is not None:
+                    env[x.target.id] = t
+            elif isinstance(x, ast.Assign) and len(x.targets) == 1 and isinstance(x.targets[0], ast.Name) and stores.get(x.targets[0].id, 0) <= 1 \
+                    and x.targets[0].id not in env:
+                v = _strip_default(x.value)
+                if isinstance(v, (ast.Name, ast.Call)) or (isinstance(v, ast.Attribute) and not isinstance(x.value, ast.BoolOp)):
+                    # an attribute holding a collection gives the ELEMENT class: only scalar-looking uses are typed here (names, constructor calls)
+                    if isinstance(v, ast.Attribute):
+                        continue
+                    t = of_expr(v)
+                    if t is not None:
+                        env[x.targets[0].id] = t
+        if len(env) == before:
+            break
+    return env
+
+
+def _helper_for(idx: PyIndex, fi: FuncInfo, call: ast.Call, tenv: Optional[Dict[str, str]] = None) -> Optional[FuncInfo]:
     f = call.func
+    if tenv and isinstance(f, ast.Attribute) and isinstance(f.value, ast.Name) and f.value.id in tenv and f.value.id not in ('self', 'cls'):
+        return idx.lookup_method(tenv[f.value.id], f.attr)
     if isinstance(f, ast.Name):
         local = idx.funcs.get(f'{fi.module}:{fi.qualname}.<locals>.{f.id}')
         if local is not None:
@@ -275,7 +387,11 @@ def _expand(idx: PyIndex, fi: FuncInfo, call: ast.Call, h: FuncInfo, at: ast.AST
         if v is None:
             return None
         # an argument that is a plain name / attribute path / constant is substituted directly (no alias), unless the helper rebinds the parameter
-        if p not in stored and (isinstance(v, (ast.Name, ast.Constant)) or (isinstance(v, ast.Attribute) and _is_path(v))):
+        simple = isinstance(v, (ast.Name, ast.Constant)) or (isinstance(v, ast.Attribute) and _is_path(v))
+        if not simple and isinstance(v, (ast.Tuple, ast.List)) and all(isinstance(c, (ast.Name, ast.Constant)) or (isinstance(c, ast.Attribute) and _is_path(c)) for c in v.elts):
+            # a display of plain values is read in place when the helper uses the parameter once
+            simple = sum(1 for x in ast.walk(hn) if isinstance(x, ast.Name) and x.id == p and isinstance(x.ctx, ast.Load)) == 1
+        if p not in stored and simple:
             direct[p] = v
             ren.pop(p, None)
             continue
@@ -332,9 +448,22 @@ class _Fold(ast.NodeTransformer):
             return True, tuple(x.value for x in e.elts)
         return False, None
 
+    def __init__(self, idx=None, exact: Optional[Dict[str, str]] = None):
+        self.idx = idx
+        self.exact = exact or {}
+
     def _truth(self, t):
         if isinstance(t, ast.Constant):
             return bool(t.value)
+        if isinstance(t, ast.Call) and isinstance(t.func, ast.Name) and t.func.id == 'isinstance' and len(t.args) == 2 and isinstance(t.args[0], ast.Name) \
+                and t.args[0].id in self.exact and self.idx is not None:
+            names = {c.name for c in self.idx.mro(self.exact[t.args[0].id])}
+            cs = t.args[1].elts if isinstance(t.args[1], (ast.Tuple, ast.List)) else [t.args[1]]
+            if all(isinstance(c, (ast.Name, ast.Attribute)) for c in cs):
+                wanted = {c.id if isinstance(c, ast.Name) else c.attr for c in cs}
+                known = {c.name for c in self.idx.classes.values()}
+                if wanted <= known:
+                    return bool(wanted & names)
         if isinstance(t, ast.UnaryOp) and isinstance(t.op, ast.Not):
             v = self._truth(t.operand)
             return None if v is None else (not v)
@@ -376,14 +505,23 @@ class _Fold(ast.NodeTransformer):
         return keep_ or ast.copy_location(ast.Pass(), node)
 
 
-def inline_function(idx: PyIndex, fi: FuncInfo, depth: int = 2, keep=None) -> ast.FunctionDef:
-    """Deep copy of fi.node with helper calls inlined (`depth` rounds); helpers whose name is in `keep` stay calls."""
+def inline_function(idx: PyIndex, fi: FuncInfo, depth: int = 2, keep=None, types: Optional[Dict[str, str]] = None) -> ast.FunctionDef:
+    """Deep copy of fi.node with helper calls inlined (`depth` rounds); helpers whose name is in `keep` stay calls.
+    With `types` (variable -> class id, taken as exact) the function is SPECIALISED: methods called on typed variables (and on loop variables over their declared
+    collections) are resolved through the class and inlined, and isinstance tests on the typed variables are decided."""
     keep = set(keep or ())
     fn = copy.deepcopy(fi.node)
     if not isinstance(fn, ast.FunctionDef):
         return fn
+    exact = dict(types or {})
+    if exact:
+        folded0 = _Fold(idx, exact).visit(fn)
+        if isinstance(folded0, ast.FunctionDef) and folded0.body:
+            fn = folded0
+    changed_any = False
     for _ in range(depth):
         changed = False
+        tenv = type_env(idx, fi, fn, exact) if types is not None else None
 
         def do_body(body: List[ast.stmt]) -> List[ast.stmt]:
             nonlocal changed
@@ -395,6 +533,34 @@ def inline_function(idx: PyIndex, fi: FuncInfo, depth: int = 2, keep=None) -> as
                         setattr(st, fld, do_body(b))
                 for hd in getattr(st, 'handlers', []) or []:
                     hd.body = do_body(hd.body)
+                # L = [h(x) for x in IT] with a helper that needs statements (a raise, a search loop)  ->  L = [] ; for x in IT: L.append(h(x))
+                if isinstance(st, (ast.Assign, ast.AnnAssign)) and isinstance(getattr(st, 'value', None), ast.ListComp) and len(st.value.generators) == 1 \
+                        and not st.value.generators[0].is_async and isinstance(st.targets[0] if isinstance(st, ast.Assign) else st.target, ast.Name):
+                    lc = st.value
+                    g0 = lc.generators[0]
+                    needs_stmts = False
+                    for c0 in ast.walk(lc.elt):
+                        if isinstance(c0, ast.Call):
+                            h0 = _helper_for(idx, fi, c0, tenv)
+                            if h0 is not None and h0.id != fi.id and h0.qualname.split('.')[-1] not in keep and _inlinable(h0, False) and _expr_form(idx, fi, c0, h0) is None:
+                                needs_stmts = True
+                    if needs_stmts:
+                        tgt = st.targets[0] if isinstance(st, ast.Assign) else st.target
+                        init = ast.Assign(targets=[ast.Name(id=tgt.id, ctx=ast.Store())], value=ast.List(elts=[], ctx=ast.Load()))
+                        app = ast.Expr(value=ast.Call(func=ast.Attribute(value=ast.Name(id=tgt.id, ctx=ast.Load()), attr='append', ctx=ast.Load()), args=[lc.elt], keywords=[]))
+                        inner: List[ast.stmt] = [app]
+                        for cnd in reversed(g0.ifs):
+                            inner = [ast.If(test=cnd, body=inner, orelse=[])]
+                        loop = ast.For(target=g0.target, iter=g0.iter, body=inner, orelse=[])
+                        for nd in (init, loop):
+                            for x in ast.walk(nd):
+                                ast.copy_location(x, st)
+                        ast.fix_missing_locations(loop)
+                        out.append(init)
+                        loop.body = do_body(loop.body)
+                        out.append(loop)
+                        changed = True
+                        continue
                 call = None
                 kind = None
                 if isinstance(st, ast.Expr) and isinstance(st.value, ast.Call):
@@ -404,7 +570,7 @@ def inline_function(idx: PyIndex, fi: FuncInfo, depth: int = 2, keep=None) -> as
                 elif isinstance(st, ast.Return) and isinstance(st.value, ast.Call):
                     call, kind = st.value, 'return'
                 if call is not None:
-                    h = _helper_for(idx, fi, call)
+                    h = _helper_for(idx, fi, call, tenv)
                     if h is not None and h.id != fi.id and h.qualname.split('.')[-1] not in keep and _inlinable(h, kind == 'stmt'):
                         ex = _expand(idx, fi, call, h, st)
                         if ex is not None:
@@ -414,6 +580,19 @@ def inline_function(idx: PyIndex, fi: FuncInfo, depth: int = 2, keep=None) -> as
                                 changed = True
                                 continue
                             if ret is not None:
+                                if kind == 'assign' and isinstance(ret, ast.Name) and ret.id.endswith('_ret') and ret.id.startswith('_h'):
+                                    # the helper's exits assign the caller's target directly (`a, b = E` on each exit instead of `r = E` ... `a, b = r`)
+                                    occ = [x for s_ in stmts for x in ast.walk(s_) if isinstance(x, ast.Name) and x.id == ret.id]
+                                    asg = [x for s_ in stmts for x in ast.walk(s_) if isinstance(x, ast.Assign) and len(x.targets) == 1 and isinstance(x.targets[0], ast.Name)
+                                           and x.targets[0].id == ret.id]
+                                    tnames = {x.id for t in st.targets for x in ast.walk(t) if isinstance(x, ast.Name)}
+                                    clash = any(isinstance(x, ast.Name) and x.id in tnames for a_ in asg for x in ast.walk(a_.value)) and len(asg) > 1
+                                    if asg and len(occ) == len(asg) and not clash:
+                                        for a_ in asg:
+                                            a_.targets = copy.deepcopy(st.targets)
+                                        out.extend(stmts)
+                                        changed = True
+                                        continue
                                 out.extend(stmts)
                                 if kind == 'assign':
                                     out.append(ast.copy_location(ast.Assign(targets=st.targets, value=ret), st))
@@ -432,7 +611,7 @@ def inline_function(idx: PyIndex, fi: FuncInfo, depth: int = 2, keep=None) -> as
 
                         def visit_Call(self, node):
                             self.generic_visit(node)
-                            h3 = _helper_for(idx, fi, node)
+                            h3 = _helper_for(idx, fi, node, tenv)
                             if h3 is not None and h3.id != fi.id and h3.qualname.split('.')[-1] not in keep:
                                 e3 = _expr_form(idx, fi, node, h3)
                                 if e3 is not None:
@@ -464,7 +643,7 @@ def inline_function(idx: PyIndex, fi: FuncInfo, depth: int = 2, keep=None) -> as
                             self.generic_visit(node)
                             if node is call:
                                 return node
-                            h2 = _helper_for(idx, fi, node)
+                            h2 = _helper_for(idx, fi, node, tenv)
                             if h2 is not None and h2.id != fi.id and h2.qualname.split('.')[-1] not in keep and _inlinable(h2, False):
                                 ex2 = _expand(idx, fi, node, h2, st)
                                 if ex2 is not None and ex2[1] is not None:
@@ -478,6 +657,7 @@ def inline_function(idx: PyIndex, fi: FuncInfo, depth: int = 2, keep=None) -> as
                 out.append(st)
             return out
         fn.body = do_body(fn.body)
+        changed_any = changed_any or changed
         if not changed:
             break
     ast.fix_missing_locations(fn)
@@ -485,14 +665,24 @@ def inline_function(idx: PyIndex, fi: FuncInfo, depth: int = 2, keep=None) -> as
     from .normalise import Canon, _Subst
     fn = _Subst({}).visit(fn)           # getattr(x, 'const') -> x.const, applied lambdas
     if fn.body and any(isinstance(x, (ast.If, ast.IfExp)) for x in ast.walk(fn)):
-        folded = _Fold().visit(fn)
+        folded = _Fold(idx, exact).visit(fn)
         if isinstance(folded, ast.FunctionDef) and folded.body:
             fn = folded
     fn = Canon().visit(fn)
     ast.fix_missing_locations(fn)
+    if changed_any:
+        # idioms that only appear once the helper body stands in place (a loop over the one-element tuple that was an argument, a flag now tested next to its definition)
+        from .normalise import desugar
+        try:
+            m = desugar(ast.Module(body=[fn], type_ignores=[]))
+            if len(m.body) == 1 and isinstance(m.body[0], ast.FunctionDef):
+                fn = Canon().visit(m.body[0])
+                ast.fix_missing_locations(fn)
+        except RecursionError:      # pragma: no cover
+            pass
     return fn
 
 
-def inlined_info(idx: PyIndex, fi: FuncInfo, depth: int = 2, keep=None) -> FuncInfo:
+def inlined_info(idx: PyIndex, fi: FuncInfo, depth: int = 2, keep=None, types: Optional[Dict[str, str]] = None) -> FuncInfo:
     """A FuncInfo whose node is the inlined copy (same identity otherwise)."""
-    return FuncInfo(fi.module, fi.qualname, inline_function(idx, fi, depth, keep), fi.cls, fi.kind)
+    return FuncInfo(fi.module, fi.qualname, inline_function(idx, fi, depth, keep, types), fi.cls, fi.kind)
